@@ -196,6 +196,74 @@ def work(payload, skip, report):
     return acc
 
 
+# --- arguments next to an argument that holds a nested construct (a call, a link, a parameter reference, a URL) ------------
+
+NEST = ["{{t}}", "x{{t}}y", "[[l]]", "{{{1}}}", "[http://x.y z]", "{{t|{{t}}}}", "k=\n v", "\n w", "4=\n*z", "a", "j=\n;d", "\n:e", "m=a\n----"]
+LINE_START_KINDS = {"PREFORMATTED", "LIST", "LIST_ITEM", "HLINE", "LEVEL1", "LEVEL2", "LEVEL3", "LEVEL4", "LEVEL5", "LEVEL6", "TABLE"}
+
+
+def flat(ctx, v):
+    """A parser-view value as text, and the kinds of the nodes in it (at any depth)."""
+    from wikitextprocessor import WikiNode
+    kinds = []
+
+    def walk(x):
+        if isinstance(x, (list, tuple)):
+            for y in x:
+                walk(y)
+        elif isinstance(x, WikiNode):
+            kinds.append(x.kind.name)
+            walk(x.children)
+            walk(getattr(x, "largs", None) or [])
+    walk(v)
+    if isinstance(v, str):
+        return v, kinds
+    return ctx.node_to_wikitext(v), kinds
+
+
+def work_nested(payload, skip, report):
+    acc = Acc(PROP)
+    _, prefix, length = payload
+    ctx = make_ctx()
+    i = 0
+    for rest in itertools.product(NEST, repeat=length - len(prefix)):
+        lst = list(prefix) + list(rest)
+        if not in_domain(lst):
+            continue
+        report(i)
+        i += 1
+        acc.case()
+        case = {"args": lst, "call": "{{t|" + "|".join(lst) + "}}", "slice": "nested"}
+        try:
+            v1, v2, v3 = views(ctx, lst)
+        except Exception as e:
+            acc.violation("no_exception", case, type(e).__name__ + ": " + str(e)[:100], "returns")
+            continue
+        r = ref(lst)
+        rexp = {k: v.replace("{{t|{{t}}}}", "T").replace("{{t}}", "T") for k, v in r.items()}
+        acc.distinct("maps", sorted((str(k), v) for k, v in r.items()))
+        js = lambda d: sorted(((str(type(k).__name__), str(k)), str(v)) for k, v in d.items())  # noqa: E731
+        if v2 != rexp:
+            acc.violation("expander_view_equals_rule", case, js(v2), js(rexp))
+        if v3 != rexp:
+            acc.violation("lua_view_equals_rule", case, js(v3), js(rexp))
+        if set(v1) != set(r):
+            acc.violation("parser_view_equals_rule", case, js(v1), js(r))
+        else:
+            for k, v in v1.items():
+                text, kinds = flat(ctx, v)
+                bad = sorted(set(kinds) & LINE_START_KINDS)
+                if bad:
+                    # in the other two views a line start inside an argument is text: the node view agrees
+                    acc.violation("parser_view_argument_line_start_is_text", case, {"name": str(k), "kinds": bad}, "text")
+                elif isinstance(v, str) and v != r[k]:
+                    acc.violation("parser_view_equals_rule", case, js(v1), js(r))
+        if i % 301 == 0:
+            acc.sample(case)
+    close_ctx(ctx)
+    return acc
+
+
 def replay(case):
     ctx = make_ctx()
     try:
@@ -219,6 +287,9 @@ def main(run):
             chunks.append(("S", (a,), L))
     for cid, acc, hung in run_chunks(work, chunks, nproc=run.nproc, case_timeout=30):
         run.acc.merge(acc)
+    nchunks = [("N", (), 1), ("N", (), 2)] + [("N", (a,), 3) for a in NEST] + ([] if q else [("N", (a, b), 4) for a in NEST for b in NEST])
+    for cid, acc, hung in run_chunks(work_nested, nchunks, nproc=run.nproc, case_timeout=30):
+        run.acc.merge(acc)
     cov = {
         "distinct_nontrivial": len(run.acc.sets.get("maps", ())),
         "rule": "every argument list of length <= %d over %d atoms and of length <= %d over a 5-atom sub-alphabet, filtered to the "
@@ -226,5 +297,6 @@ def main(run):
                 "reference rule. distinct = distinct reference argument maps." % (3 if q else 4, len(ATOMS), 5 if q else 7),
         "exhaustive": True,
     }
-    assumptions = ["the echo Lua module and the ustring stand-in are fixtures; values are plain text (no nested calls; those are C08)"]
+    assumptions = ["the echo Lua module and the ustring stand-in are fixtures; values are plain text (no nested calls; those are C08)",
+                   "nested slice: every argument list of length <= %d over %d atoms of which 6 hold a construct that closes inside the argument (call, link, parameter reference, URL, call in a call) and 6 have a line start that would be markup outside a call: names and values of the expander and Lua views against the rule, names of the node view against the rule, plain node-view values against the rule, and no line-start node (list, preformatted, heading, rule, table) anywhere inside a node-view value" % (3 if q else 4, len(NEST))]
     return run.finish(cov, assumptions, replay_fn=replay)
